@@ -254,10 +254,15 @@ impl CharProperty {
         let r: Vec<_> = cols[0].split("..").collect();
         let start = usize::from_str_radix(String::from(r[0]).trim_start_matches("0x"), 16)?;
         let end = if r.len() > 1 {
-            usize::from_str_radix(String::from(r[1]).trim_start_matches("0x"), 16)? + 1
+            usize::from_str_radix(String::from(r[1]).trim_start_matches("0x"), 16)?
+                .checked_add(1)
         } else {
-            start + 1
-        };
+            start.checked_add(1)
+        }
+        .ok_or_else(|| {
+            let msg = format!("A character range must be no more 0xFFFF, {line}");
+            VibratoError::invalid_format("char.def", msg)
+        })?;
         if start >= end {
             let msg =
                 format!("The start of a character range must be no more than the end, {line}");
